@@ -17,7 +17,7 @@ def run(tier):
     jobs += [mhglue.mh_job(1, "base", 1, 0, beyond=True)]
     mhglue.run("C08", tier, jobs, ev, vd)
     # assembly part within reach of the symbolic machine: footprint monitor on key expansion, CBC, XTS, GCM init
-    aescampaign.run("C08", tier, ev, vd, only=("keyexp", "cbc", "xts", "gcminit", "gcmdata", "gcmstream", "hashkernel", "mhkernel", "murkernel"))
+    aescampaign.run("C08", tier, ev, vd, only=("keyexp", "cbc", "xts", "gcminit", "gcmdata", "gcmstream", "hashkernel") + (() if tier == "quick" else ("mhkernel", "murkernel")))      # quick: the multi-hash / stitched kernels run under C05 / C10 only (run time)
     ev.cov["bounds"].update({"memcpy_inline": "memcpy_varlen / memcpy_fixedlen / memclr_varlen n = 0..64 and 128 (varlen also 127), memclr_fixedlen n in {0,1,8,16,20,32,64,128}; one CBMC run per length, both object layouts" if tier == "quick" else "all four helpers, n = 0..130",
                              "rolling_hash": "windows 1..4, buffers of w+4 bytes (exact-size buffer object)" if tier == "quick" else "windows 1..6 and 8, buffers of w+4 bytes",
                              "mh_glue": mhglue.MH_BOUNDS["lengths"]})
